@@ -224,13 +224,16 @@ def _measure_cases(tier):
     c.append(("existing_pickup", dict(divs=4, tss=[(0, 4, 4)], existing=[(0, 4)], last=36)))
     c.append(("two_existing_with_gap", dict(divs=2, tss=[(0, 2, 4)], existing=[(0, 4), (10, 14)], last=22)))
     c.append(("divs_change_inside", dict(divs=2, tss=[(0, 4, 4)], existing=[], last=28, qchanges=[(0, 2), (8, 3)])))
+    # the part counts musical beats (two to the bar in 6/8, three in 9/8): the bars are still those of the signature
+    c.append(("six_eight_counted_in_musical_beats", dict(divs=4, tss=[(0, 6, 8)], existing=[], last=48, musical=True)))
+    c.append(("nine_eight_then_four_four_counted_in_musical_beats", dict(divs=2, tss=[(0, 9, 8), (18, 4, 4)], existing=[(0, 9)], last=34, musical=True)))
     if tier == "thorough":
         c.append(("irregular_existing", dict(divs=4, tss=[(0, 4, 4), (48, 3, 4)], existing=[(16, 22), (22, 48)], last=72)))
         c.append(("ts_not_at_start", dict(divs=4, tss=[(8, 3, 4)], existing=[], last=44)))
     return c
 
 
-def _build_measure_part(divs, tss, existing, last, qchanges=None):
+def _build_measure_part(divs, tss, existing, last, qchanges=None, musical=False):
     import partitura.score as sc
     p = sc.Part("P", quarter_duration=divs)
     for t, q in (qchanges or [])[1:]:
@@ -240,6 +243,8 @@ def _build_measure_part(divs, tss, existing, last, qchanges=None):
     for i, (s, e) in enumerate(existing):
         p.add(sc.Measure(number=90 + i), s, e)
     p.add(sc.Note("C", 4, id="long", voice=1), 0, last)
+    if musical:
+        p.use_musical_beat()
     return p
 
 
